@@ -4,7 +4,8 @@
  * Commands (one per line on stdin, one result line each on stdout):
  *   gen <id> <proc> <w> <h> <ncomp> <sub> <quality> <restart> <seed> <jfifmajor> <nmark> {<code> <len>}*
  *        proc: 0 baseline, 1 extended 12-bit, 2 progressive 8-bit, 3 progressive 12-bit,
- *              4 lossless (precision = quality field 2..16, psv=1+seed%7), 5 baseline+garbage/fill bytes
+ *              4 lossless (precision = quality field 2..16, psv=1+seed%7), 5 baseline+garbage/fill bytes,
+ *              6 / 7 multi-scan sequential / progressive, components share Q-table slots, DQT spliced between scans
  *        restart: 0 none, >0 restart_interval in MCUs, <0 restart_in_rows = -restart
  *        -> "gen <id> <len> <hex>"
  *   load <id> <hex>                        -> "load <id> <len>"
@@ -22,6 +23,7 @@
  *   api: 0 = jpeg_read_header/start_decompress/read_scanlines/finish_decompress
  *        1 = buffered-image mode, canonical schedule (all input first, one output pass)
  *        >= 2 = buffered-image mode, schedule drawn from seed = api
+ *        >= 2^28: (c1 << 12 | rows << 4 | reps) + 2^28: c1 consume_input calls, reps early passes of <= rows rows, then final
  *   savecfg: 0 none; 1 save COM+all APPn with limit 0xFFFF; 2 save COM+APPn with limit 9; 3 save only COM limit 70000
  */
 #include <stdio.h>
@@ -263,6 +265,21 @@ static void decode(int id, int api, int savecfg, int src_kind, partition *pt, di
     if (api == 1) {
       for (;;) { int r = jpeg_consume_input(&c); if (r == JPEG_REACHED_EOI) break; if (r == JPEG_SUSPENDED) FEED(); }
     }
+    if (api >= (1 << 28)) {
+      /* deterministic family: c1 successful jpeg_consume_input calls, then `reps` early output passes that
+       * read at most `rows` rows each (255 = all; 0 = abandoned at once), then all input, then the final pass */
+      int c1 = (api >> 12) & 0xFFFF, rows = (api >> 4) & 0xFF, reps = api & 15, i;
+      while (c1 > 0 && !jpeg_input_complete(&c)) { if (jpeg_consume_input(&c) == JPEG_SUSPENDED) FEED(); else c1--; }
+      for (i = 0; i < reps && !jpeg_input_complete(&c); i++) {
+        while (!jpeg_start_output(&c, c.input_scan_number)) FEED();
+        while (c.output_scanline < c.output_height && (rows == 255 || (int)c.output_scanline < rows)) {
+          if (read_rows(&c, rowbuf, 1) == 0) FEED();
+        }
+        while (!jpeg_finish_output(&c)) FEED();
+      }
+      for (;;) { int r = jpeg_consume_input(&c); if (r == JPEG_REACHED_EOI) break; if (r == JPEG_SUSPENDED) FEED(); }
+      api = 1;   /* the rest is the canonical final pass */
+    }
     for (;;) {
       int stop_early, k;
       /* optional input consumption before the pass */
@@ -365,6 +382,67 @@ static void setup_compress(j_compress_ptr c, int proc, int w, int h, int nc, int
   }
   if (restart > 0) c->restart_interval = restart;
   else if (restart < 0) c->restart_in_rows = -restart;
+  if ((proc == 6 || proc == 7) && nc == 3) {
+    /* multi-scan streams whose components share quantization-table slots (a DQT is spliced between
+     * the scans afterwards): 6 = sequential, 7 = progressive with per-component DC scans */
+    static const jpeg_scan_info seqA[3] = { { 1, { 0 }, 0, 63, 0, 0 }, { 1, { 1 }, 0, 63, 0, 0 }, { 1, { 2 }, 0, 63, 0, 0 } };
+    static const jpeg_scan_info seqB[2] = { { 1, { 0 }, 0, 63, 0, 0 }, { 2, { 1, 2 }, 0, 63, 0, 0 } };
+    static const jpeg_scan_info seqC[3] = { { 1, { 2 }, 0, 63, 0, 0 }, { 1, { 0 }, 0, 63, 0, 0 }, { 1, { 1 }, 0, 63, 0, 0 } };
+    static const jpeg_scan_info prgA[6] = { { 1, { 0 }, 0, 0, 0, 0 }, { 1, { 1 }, 0, 0, 0, 0 }, { 1, { 2 }, 0, 0, 0, 0 },
+                                            { 1, { 0 }, 1, 63, 0, 0 }, { 1, { 1 }, 1, 63, 0, 0 }, { 1, { 2 }, 1, 63, 0, 0 } };
+    static const jpeg_scan_info prgB[7] = { { 1, { 0 }, 0, 0, 0, 1 }, { 1, { 0 }, 1, 63, 0, 0 }, { 1, { 1 }, 0, 0, 0, 1 },
+                                            { 1, { 2 }, 0, 0, 0, 1 }, { 1, { 1 }, 1, 63, 0, 0 }, { 1, { 2 }, 1, 63, 0, 0 },
+                                            { 3, { 0, 1, 2 }, 0, 0, 1, 0 } };
+    unsigned v = (unsigned)((seed / 3) % 3);
+    if (seed % 3 != 1) { c->comp_info[1].quant_tbl_no = 0; c->comp_info[2].quant_tbl_no = 0; }   /* all on slot 0 */
+    if (proc == 6) {
+      if (v == 0) { c->scan_info = seqA; c->num_scans = 3; }
+      else if (v == 1) { c->scan_info = seqB; c->num_scans = 2; }
+      else { c->scan_info = seqC; c->num_scans = 3; }
+    } else {
+      if (v == 0) { c->scan_info = prgA; c->num_scans = 6; } else { c->scan_info = prgB; c->num_scans = 7; }
+    }
+  }
+}
+
+/* offset of the n-th SOS marker (n from 1) of a stream, 0 if there is none */
+static size_t find_sos(const unsigned char *p, size_t size, int n)
+{
+  size_t pos = 2; int seen = 0;
+  while (pos + 4 <= size) {
+    unsigned m; size_t len;
+    if (p[pos] != 0xFF) return 0;
+    m = p[pos + 1];
+    if (m == 0xFF) { pos++; continue; }
+    if (m == 0xD9) return 0;
+    len = ((size_t)p[pos + 2] << 8) | p[pos + 3];
+    if (m == 0xDA) {
+      if (++seen == n) return pos;
+      pos += 2 + len;
+      while (pos + 1 < size) {          /* skip entropy-coded data */
+        if (p[pos] == 0xFF && p[pos + 1] != 0x00 && p[pos + 1] != 0xFF && !(p[pos + 1] >= 0xD0 && p[pos + 1] <= 0xD7)) break;
+        pos++;
+      }
+      continue;
+    }
+    pos += 2 + len;
+  }
+  return 0;
+}
+
+/* insert "DQT slot := table drawn from rs" in front of the n-th SOS; returns the new buffer */
+static unsigned char *splice_dqt(unsigned char *jpg, size_t *size, int n, int slot)
+{
+  size_t at = find_sos(jpg, *size, n), i; unsigned char *out; unsigned base, spread;
+  if (at == 0) return jpg;
+  out = (unsigned char *)malloc(*size + 69);
+  memcpy(out, jpg, at);
+  out[at] = 0xFF; out[at + 1] = 0xDB; out[at + 2] = 0; out[at + 3] = 67; out[at + 4] = (unsigned char)slot;
+  base = 1 + rb(120); spread = 1 + rb(100);
+  for (i = 0; i < 64; i++) out[at + 5 + i] = (unsigned char)(base + rb(spread));
+  memcpy(out + at + 69, jpg + at, *size - at);
+  *size += 69; free(jpg);
+  return out;
 }
 
 static size_t generate(int id, int proc, int w, int h, int nc, int sub, int quality, int restart, uint64_t seed,
@@ -415,6 +493,14 @@ static size_t generate(int id, int proc, int w, int h, int nc, int sub, int qual
     }
     memcpy(o + n, out + k, outsize - k); n += outsize - k;
     rs = save; free(out); S[id] = o; SL[id] = n;
+  } else if (proc == 6 || proc == 7) {
+    /* redefine a shared slot between the scans of different components (one or two DQT segments) */
+    size_t n = outsize; uint64_t save = rs; int nsos = 0, k, cnt;
+    while (find_sos(out, n, nsos + 1)) nsos++;
+    rs = seed ^ 0x5DEECE66DULL; cnt = 1 + (int)rb(2);
+    for (k = 0; k < cnt && nsos >= 2; k++)
+      out = splice_dqt(out, &n, 2 + (int)rb((unsigned)nsos - 1), (seed % 3 == 1) ? 1 : 0);
+    rs = save; S[id] = out; SL[id] = n;
   } else { S[id] = out; SL[id] = outsize; }
   return SL[id];
 }
